@@ -80,11 +80,13 @@ def check(V, prop, tier, seed, cfg):
                 for rep in range(tcfg.get("reps", 1)):
                     s = base + n * 13 + rep * 1009
                     cap = [1, 2, 3, 4][(n + rep) % 4]
-                    jobs.append(("pair", kind, a, b, s, iters, rep % 2, cap, 0, 0))  # even reps: Tracked values, odd reps: std::string keys and values
+                    if rep % 3 == 2:
+                        cap = 150  # a large population expiring at once; BigTracked values (> 256 bytes)
+                    jobs.append(("pair", kind, a, b, s, iters, rep % 3, cap, 0, 0))  # rep 0: Tracked, 1: std::string keys/values, 2: BigTracked + capacity 150
                 n += 1
     for i in range(tcfg.get("programs", 0)):
         kind = KINDS[i % len(KINDS)]
-        jobs.append(("prog", kind, "-", "-", base + 50000 + i, 0, (i // len(KINDS)) % 2, 1 + (i % 4), 3 + (i % 2), tcfg.get("prog_ops", 30)))
+        jobs.append(("prog", kind, "-", "-", base + 50000 + i, 0, (i // len(KINDS)) % 3, 1 + (i % 4), 3 + (i % 2), tcfg.get("prog_ops", 30)))
 
     def run_job(j):
         mode, kind, a, b, s, it, types, cap, th, ops = j
